@@ -394,6 +394,7 @@ class QvmCode(BaseCode):
             # Fold push/push/binary-op
             if (prev1.op == prev2.op == Op.PUSH and
                 prev1.type_char == prev2.type_char and
+                prev1.type_char != '$' and
                 cur.op in [Op.ADD, Op.SUB, Op.MUL, Op.DIV, Op.AND,
                            Op.OR, Op.XOR, Op.EQV, Op.IMP, Op.IDIV,
                            Op.MOD, Op.EXP]
